@@ -900,7 +900,7 @@ def gen_random(rng, maxlen):
 
 
 SENDERS = [('5.6.7.8', 4445), ('9.9.0.9', 5000), ('9.9.1.9', 5001), ('127.0.0.1', 4444), ('10.0.0.1', 80), ('8.8.8.8', 53),
-           ('1.2.3.4', 4444), ('200.1.1.1', 65535), ('7.7.7.7', 7000), ('9.9.2.9', 5002)]
+           ('1.2.3.4', 4444), ('200.1.1.1', 65535), ('7.7.7.7', 7000), ('9.9.2.9', 5002), ('9.9.3.9', 6003)]
 # sender classes: 9.9.0.9 / 9.9.1.9 are contacts IN the routing table that have just answered one of our requests
 # (rated good), 7.7.7.7 is rated good but NOT in the table, 9.9.2.9 is in the table but not rated, the others are
 # unknown (5.6.7.8, 200.1.1.1, our own address) or unusable as contacts (loopback, private, port < 1024)
@@ -1592,6 +1592,14 @@ def main(run):
                            q_addr, 'busy node: findValue, %d announcers, page %d' % (ann, page), fill=ann, expect_reply=want)
         check_datagram(ctx, _req(bytes([ann]) * 20, q_id, b'findNode', [BIG_BLOB]), q_addr, 'busy node: findNode', fill=ann,
                        expect_reply={'contacts': 8, 'peers': 0})
+    # -- impersonation: a routing-table contact's node id from another endpoint (other host; SAME host, other port) ------
+    for i in range(5):
+        cid = constants.generate_id(100 + i)
+        for src in ((f'9.9.{i}.9', 5000 + i + 7), (f'9.9.{i}.9', 65535), (f'9.9.{i}.9', 1023), (f'9.9.{(i + 1) % 5}.9', 5000 + i), ('5.6.7.8', 5000 + i)):
+            for mth, args in ((b'noSuchMethod', []), (b'findNode', [b'k' * 47]), (b'store', [BIG_BLOB, b't' * 48, 80, cid, 0]),
+                              (b'store', [BIG_BLOB, b't' * 48, 7000 + i, cid, 0]), (b'ping', [])):
+                check_datagram(ctx, _req(bytes([i]) * 20, cid, mth, args), src,
+                               'impersonation: contact id from %s' % ('its host, another port' if src[0] == f'9.9.{i}.9' else 'another host'))
     # -- arity: every method with 0..7 positional arguments (valid values, cut off or extended) --------------------------
     full_args = {b'ping': [], b'store': [BIG_BLOB, b't' * 48, 5001, b'n' * 48, 0], b'findNode': [BIG_BLOB], b'findValue': [BIG_BLOB]}
     for mth, fa in full_args.items():
